@@ -22,7 +22,7 @@ PROPS = {
    'nontrivial': lambda r: r.get('allocs', 0) >= 20 and r.get('frees', 0) >= 5, 'distinct_by': 'api+sched',
  },
  'C02': {
-   'families': [('c02_pingpong', 5, ALL), ('c02_ownercollect', 3, ALL), ('c02_manypushers', 3, ALL), ('c02_hugeremote', 2, ALL)],
+   'families': [('c02_pingpong', 5, ALL), ('c02_ownercollect', 3, ALL), ('c02_manypushers', 3, ALL), ('c02_hugeremote', 2, ALL), ('c02_forceabandon', 3, ALL)],
    'runs': {'quick': 3000, 'thorough': 150000},
    'rule': 'non-trivial = at least one context switch inside mi_free_block_delayed_mt (between its CASes), _mi_page_thread_free_collect or _mi_heap_delayed_free_partial; distinct = distinct (API result hash, hash of the (thread, site) sequence at context switches inside hot functions)',
    'nontrivial': lambda r: sw(r, 'switch_in_free_mt', 'switch_in_tf_collect', 'switch_in_delayed_partial') > 0,
